@@ -199,7 +199,25 @@ func runC45(r *Report) {
 					form2 = isk && k == w
 				}
 			}
-			if !form1 && !form2 {
+			// the same test written as the exit condition: `if i >= len(bs) { break }` / `if i+W > len(bs) { break }`
+			form3 := isc && cmp.Op == token.GEQ && cmp.X == ssa.Value(ph)
+			form4 := false
+			if isc && cmp.Op == token.GTR {
+				if bo, isb := cmp.X.(*ssa.BinOp); isb && bo.Op == token.ADD && bo.X == ssa.Value(ph) {
+					k, isk := ConstInt(bo.Y)
+					form4 = isk && k == w
+				}
+			}
+			if (form3 || form4) && isc {
+				// the slice must be on the arm where the exit test failed
+				if !ph.Block().Succs[1].Dominates(get.Block()) {
+					form3, form4 = false, false
+				}
+			}
+			if (form1 || form2) && isc && !ph.Block().Succs[0].Dominates(get.Block()) {
+				form1, form2 = false, false
+			}
+			if !form1 && !form2 && !form3 && !form4 {
 				good = false
 			} else if lc, isl := cmp.Y.(*ssa.Call); !isl || CalleeName(lc) != "builtin.len" || !Same(lc.Call.Args[0], sl.X) {
 				good = false
